@@ -9,6 +9,7 @@ import (
 	"encoding/hex"
 	"encoding/json"
 	"fmt"
+	"os"
 	"regexp"
 	"strings"
 	"sync"
@@ -396,7 +397,18 @@ func c18Switch(r *Run, ops []string) {
 		divertedAt    = map[int]bool{}
 		bad       string
 		order     []string
+		curTemp   = "main" // where the ghost says errors go now
+		expectT   string   // where the in-flight error must arrive
+		inflightID int
 	)
+	waitCh := func(ch chan struct{}) bool {
+		select {
+		case <-ch:
+			return true
+		case <-time.After(2 * time.Second):
+			return false
+		}
+	}
 	waitLocked := func(want bool) bool {
 		deadline := time.Now().Add(5 * time.Second)
 		for sw.VerifLocked() != want {
@@ -430,13 +442,13 @@ func c18Switch(r *Run, ops []string) {
 			if !inflight {
 				// run is idle: it receives, locks, and blocks
 				// on the target channel
-				<-s.done
-				if !waitLocked(true) {
+				if !waitCh(s.done) || !waitLocked(true) {
 					out = "hung"
 					break
 				}
 				inflight = true
 				divertedAt[id] = divertedGhost
+				expectT, inflightID = curTemp, id
 				out = "inflight"
 			} else {
 				pending = append(pending, s)
@@ -472,16 +484,19 @@ func c18Switch(r *Run, ops []string) {
 				order = append(order, fmt.Sprintf("%d>%s", id, tn))
 				inflight = false
 				if waiter != nil {
-					<-waiter
+					if !waitCh(waiter) {
+						out = "hung"
+						break
+					}
 					waiter = nil
 				}
 				if len(pending) > 0 {
-					<-pending[0].done
-					if !waitLocked(true) {
+					if !waitCh(pending[0].done) || !waitLocked(true) {
 						out = "hung"
 						break
 					}
 					divertedAt[pending[0].id] = divertedGhost
+					expectT, inflightID = curTemp, pending[0].id
 					pending = pending[1:]
 					inflight = true
 				} else if !waitLocked(false) {
@@ -493,6 +508,11 @@ func c18Switch(r *Run, ops []string) {
 			case <-time.After(timeout):
 				out = "none"
 				r.Count("sw/take-miss")
+				if inflight && name == expectT && bad == "" {
+					bad = fmt.Sprintf("error e%d was processed while diverted=%v but did not arrive on channel %s",
+						inflightID, divertedAt[inflightID], name)
+					out = "hung"
+				}
 			}
 		case "divert", "restore":
 			var call func()
@@ -524,9 +544,21 @@ func c18Switch(r *Run, ops []string) {
 				r.Count("sw/ctl")
 			}
 			divertedGhost = newGhost
+			if newGhost {
+				curTemp = f[1]
+			} else {
+				curTemp = "main"
+			}
 		}
 		hist = append(hist, op+" => "+out)
 		r.Emit("C18 sw "+op, out)
+		if out == "hung" {
+			// the switch is not where the op sequence expects it to be
+			if bad == "" {
+				bad = "switch stuck or out of step after: " + op
+			}
+			break
+		}
 	}
 	// everything delivered, in delivery order, with its target
 	endOut := "-"
@@ -571,6 +603,9 @@ type c18Case struct {
 }
 
 func runC18(r *Run) {
+	if os.Getenv("C18_CHILD") != "" {
+		c18Child()
+	}
 	r.Rule = "handshake: real authenticate() with random 32-byte (7/8) or odd-length challenges; backoff: real " +
 		"connectServerStream with ns-scale (init,min,max,retries,fails), half of them inside 0<min<=max & init in {0,min}; " +
 		"switch: real ErrChanSwitch goroutine under random send/take/divert/restore sequences (<=1 queued sender); " +
